@@ -94,6 +94,22 @@ NEEDS = {
  "C15f": ("C15", "an iterator positioned onto a damaged data block twice (the block handle is stored before the block is read: the second positioning takes the 'already loaded' shortcut and the scan silently goes on)"),
  "C16f": ("C16", "crash while two logs are live and the newest holds no complete record (last sequence taken from the log replayed last: sequence numbers go backwards)"),
  "C17f": ("C17", "an open that has opened LOCK before destroy unlinks it and locks it after destroy released it (lock_file's 'is the path still the locked inode' check accepts a missing path); statistical demonstration"),
+ # ---- sixth wave: directed by FILE, not by property (each agent got the statements of all 17
+ # properties and one source file / area to put its change in)
+ "G01": ("C03", "memtable.rs: a seek whose target has the EMPTY user key answers with seek_to_first; a snapshot get of \"\" then returns a version newer than the snapshot while it is still in the memtable (the database iterator re-checks the sequence, get does not)"),
+ "G02": ("C01", "batch.rs: width of a value's length prefix taken from the key length; a WAL record with >= 2 operations whose key and value length varints differ in width is misparsed at replay (reopen / crash before the flush): open fails, or an operation is lost and a foreign key deleted"),
+ "G03": ("C10", "version_manifest.rs: encoder gathers deleted and added files in one map keyed by file number; the record of a TRIVIAL MOVE loses its delete: after a reopen the file is in two levels (or, once compacted away, the open fails with a missing file)"),
+ "G04": ("C04", "block.rs: BlockIter::seek shortcut 'cursor already at the first entry >= target' with <= instead of <: seek(k) on an iterator that stands right after k lands on the successor"),
+ "G05": ("C01", "key.rs: PartialOrd of InternalKey breaks ties on the operation tag while Ord does not; the file search (largest < target) skips a file whose largest key is a tombstone with exactly the lookup's sequence: the deleted key reappears from a deeper level"),
+ "G06": ("C05", "= C05b: cache.rs new_id in two critical sections (found again through the file)"),
+ "G07": ("C03", "= C07b / C03e: smallest snapshot taken from newest() (found again)"),
+ "G08": ("C11", "file_names.rs: the CURRENT temp file is created under data/; a crash between writing it and the rename leaves a temp file that the deletion pass (which only looks for temp files in the root) never reclaims"),
+ "G09": ("C11", "compaction/state.rs: opening the next compaction output removes the previous, finished one from tables_in_use; a memtable flush inside the merge loop then deletes finished outputs before they are installed"),
+ "G10": ("C14", "= C14 (first wave): filter builder told an offset 5 bytes short (handle size without the block trailer)"),
+ "G11": ("C01", "version.rs: Version::get breaks out of the level-0 candidate loop on 'not in this file' instead of continuing: >= 2 level-0 files cover the key, the newest lacks it"),
+ "G12": ("C03", "= C03 (first wave): upper-bound file search by user key only"),
+ "G13": ("C01", "worker.rs: after the merge loop 'finish the open output' is tested before 'shutting down': a close during a table compaction installs the half-written outputs and deletes all inputs"),
+ "G14": ("C01", "utils/io.rs: length-prefixed slices above 1 MiB are rejected by the READER only: a value > 1 MiB is acknowledged, then the reopen that replays its WAL record fails"),
 }
 
 def results():
